@@ -13,5 +13,6 @@ for d in seeded/*/; do
   ./check $P --tier $TIER > /verif/work/seedrun.$N.log 2>&1; RC=$?
   git -C /repo checkout -- .
   git -C /repo clean -fdq -- . 2>/dev/null
-  echo "seed=$N property=$P tier=$TIER rc=$RC violations=$(grep -c '^VIOLATION' /verif/work/seedrun.$N.log) :: $(tail -1 /verif/work/seedrun.$N.log | cut -c1-120)"
+  NEUT=$(python3 -c "import json;print('neutralised' if json.load(open('$d/meta.json')).get('neutralised_by') else '')")
+  echo "seed=$N property=$P tier=$TIER $NEUT rc=$RC violations=$(grep -c '^VIOLATION' /verif/work/seedrun.$N.log) :: $(tail -1 /verif/work/seedrun.$N.log | cut -c1-120)"
 done
